@@ -21,6 +21,48 @@ pub struct Log {
 /// Token types of subjects report a small integer id.
 pub trait Tok: Copy {
     fn id(&self) -> usize;
+    /// payload of value variants (callbacks family)
+    fn val(&self) -> u64 {
+        0
+    }
+}
+
+/// Custom error type of the callbacks family: 0 = Default, 1_000_000 + v = converted from a
+/// callback's `Ecb(v)`, 2_000_000 + .. = produced by the error callback.
+#[derive(Clone, Debug, Default, PartialEq, Eq)]
+pub struct E(pub u64);
+#[derive(Clone, Debug, PartialEq, Eq)]
+pub struct Ecb(pub u64);
+impl From<Ecb> for E {
+    fn from(e: Ecb) -> E {
+        E(1_000_000 + e.0)
+    }
+}
+impl ErrCode for E {
+    fn code(&self) -> u64 {
+        self.0
+    }
+}
+
+/// Body shared by all generated callbacks: log the invocation (pattern, span, slice), bump `bump`
+/// whole chars (bytes in byte mode) of the remainder, return the decision index and the value.
+pub fn cb_common<'s, T>(lex: &mut Lexer<'s, T>, pat: u32, salt: u32, bump: u8, nopts: u8) -> (u8, u64)
+where
+    T: Logos<'s, Extras = Log>,
+    T::Source: Src,
+    <T::Source as Source>::Slice<'s>: AsRef<[u8]>,
+{
+    let sp = lex.span();
+    let sl: Vec<u8> = lex.slice().as_ref().to_vec();
+    let n = {
+        let rem = lex.remainder();
+        model::set::bump_bytes(rem.as_ref(), bump, <T::Source as Src>::IS_STR)
+    };
+    lex.extras.cbs.push((pat, sp.start, sp.end, model::fnv(&sl), n));
+    if n > 0 {
+        lex.bump(n);
+    }
+    ((model::set::decide(salt, &sl) % nopts as u64) as u8, model::set::cb_value(&sl))
 }
 
 /// Error types of subjects report a code (0 = Default).
@@ -35,11 +77,13 @@ impl ErrCode for () {
 
 /// Source helper: boundary predicate independent of logos.
 pub trait Src {
+    const IS_STR: bool;
     fn bytes(&self) -> &[u8];
     fn boundary(&self, i: usize) -> bool;
     fn from_bytes(b: &[u8]) -> &Self;
 }
 impl Src for str {
+    const IS_STR: bool = true;
     fn bytes(&self) -> &[u8] {
         self.as_bytes()
     }
@@ -51,6 +95,7 @@ impl Src for str {
     }
 }
 impl Src for [u8] {
+    const IS_STR: bool = false;
     fn bytes(&self) -> &[u8] {
         self
     }
@@ -68,6 +113,9 @@ pub struct Obs {
     pub items: Vec<Item>,
     /// error codes of Err items, in order
     pub err_codes: Vec<u64>,
+    /// payloads of Ok items, in order
+    #[serde(default)]
+    pub vals: Vec<u64>,
     pub ended: bool,
     pub none_again: bool,
     pub final_span: (usize, usize),
@@ -140,7 +188,10 @@ where
             Some(r) => {
                 let span = lex.span();
                 match r {
-                    Ok(t) => obs.items.push(Item { kind: Some(t.id()), start: span.start, end: span.end }),
+                    Ok(t) => {
+                        obs.items.push(Item { kind: Some(t.id()), start: span.start, end: span.end });
+                        obs.vals.push(t.val());
+                    }
                     Err(e) => {
                         obs.items.push(Item { kind: None, start: span.start, end: span.end });
                         obs.err_codes.push(e.code());
